@@ -250,7 +250,41 @@ type c15Outer struct {
 	SU [][23]byte        `json:"su"`
 }
 
+// a type whose registered schema is a union without a null branch: whatever schema generation puts around it
+// (pointer, omitempty, slices of pointers), unions must not end up directly inside unions
+type c15Either struct{ S string }
+type c15EitherHolder struct {
+	F  c15Either             `json:"f"`
+	P  *c15Either            `json:"p"`
+	O  c15Either             `json:"o,omitempty"`
+	OP *c15Either            `json:"op,omitempty"`
+	SP []*c15Either          `json:"sp"`
+	M  map[string]*c15Either `json:"m"`
+	PP **c15Either           `json:"pp"`
+}
+
+func c15registeredUnion(c *core.Ctx) {
+	avro.RegisterSchema(reflect.TypeOf(c15Either{}), avro.Schema{Type: "union", Union: []avro.Schema{{Type: "string"}, {Type: "long"}}})
+	s, err := avro.SchemaForType(c15EitherHolder{})
+	c.Eval(1)
+	if err != nil {
+		c.Violate("registered", "SchemaForType refused a struct that uses a type registered with a union schema: "+err.Error(), nil)
+		return
+	}
+	ir := libToIR(s)
+	if err := ir.Validate(); err != nil {
+		c.Violate("validity", fmt.Sprintf("a type registered with the union schema [string,long], used behind pointers and under omitempty: generated schema is not structurally valid: %v\n schema %s", err, ir.JSON()), nil)
+		return
+	}
+	if f := ir.Fields[0].Type; f.Type != "union" || len(f.Branches) != 2 || f.Branches[0].Type != "string" {
+		c.Violate("registered", "the plain field of the registered type does not carry its registered schema: "+f.JSON(), nil)
+		return
+	}
+	c.Count("registered-union-scenarios-ok", 1)
+}
+
 func c15registration(c *core.Ctx) {
+	c15registeredUnion(c)
 	get := func() *refavro.Schema {
 		s, err := avro.SchemaForType(c15Outer{})
 		if err != nil {
